@@ -397,6 +397,17 @@ Definition relex_quoted (ts : list tok) : option (list tok) :=
   | _ => None
   end.
 
+(* blockLabels.Replace (ast_block.go): per label, TokensForValue(StringVal(label))
+   is written out and re-scanned with lexConfig, the EOF token dropped (the
+   guard `len(relexed) > 1` always holds: there is at least the opening quote).
+   None = the bytes leave the modelled fragment of the scanner (template
+   introducer, malformed UTF-8, unterminated) — proved impossible for every
+   label of Unicode scalar values (GenerateProofs.label_replace_roundtrip). *)
+Definition replace_label (is_print : Z -> bool) (l : list Z) : option (list tok) :=
+  relex_quoted (gen_string is_print l).
+Definition replace_labels (is_print : Z -> bool) (ls : list (list Z)) : list (option (list tok)) :=
+  map (replace_label is_print) ls.
+
 (* ======================================================================== *)
 (* 6. parseObjectCons: the `for` look-ahead (parser.go:1404-1421)            *)
 (* ======================================================================== *)
